@@ -676,7 +676,10 @@ def spec_requests(ctx, cs):
         except IllFormed as e:
             ctx.count(f"spec-ill-formed:{str(e).split(':')[0][:30]}")
             continue
-        envw = sx(ser.env_wire({k: np.float64(v) for k, v in env.items()}))
+        if env.get("__approx__"):
+            ctx.count("spec-skipped:inexact-ops (reference = eager build, rounded)")
+            continue
+        envw = sx(ser.env_wire({k: np.float64(v) for k, v in env.items() if not k.startswith("__")}))
         reqs.append(f"C03 denote {sx(wire)} {sx(ser.ins_wire(ins))} {envw}")
         meta.append((idx, "spec", ins))
         try:
@@ -734,16 +737,18 @@ def spec_requests(ctx, cs):
 
 def sizes(ctx):
     if ctx.tier == "quick":
-        return 220, 3
+        return 225, 3
     return 5200, 4
 
 
 def correspond(ctx):
     n, nshards = sizes(ctx)
     base_seed = ctx.rng.getrandbits(48)
-    ctx.rule = ("seeded cases: 2/5 random type-directed recipes of fv/gen_terms.py (depth <= 4, 1-4 Bint inputs of size 1-4), "
-                "1/5 normal-form grid shapes (unary neg/abs of a max/min/add/mul reduction of a binary add/mul/sub/max/min, bare or "
-                "wrapped in sub/add/outer reduce/second unary; the (unary, red_op, bin_op) grid is walked in order), "
+    ctx.rule = ("seeded cases: 1/5 random type-directed recipes of fv/gen_terms.py (depth <= 4, 1-4 Bint inputs of size 1-4), "
+                "2/5 normal-form grid shapes (unary neg/abs/reciprocal/exp/log of a max/min/add/mul/logaddexp reduction of a binary "
+                "add/mul/sub/max/min or a three-term product, bare or wrapped in sub / truediv / add / outer reduce / second "
+                "unary / substitution / renaming; the exact (unary, red_op, bin_op) grid is walked first, in order; "
+                "expressions with inexact ops are compared after rounding to 8 digits against the eager build), "
                 "1/5 sum-product shapes (product of 2-4 factors reduced by add/max/min, optionally in two elimination steps), "
                 "1/5 reductions of LAZY bodies with a free real variable (exercise sequential_reduce); each case is run in 4 "
                 "sub-process configurations FUNSOR_USE_TCO x FUNSOR_TYPECHECK under ~32 modes (eager; lazy/reflect/normalize/"
